@@ -32,7 +32,7 @@ pub enum KOp {
     SendBytes(u16),
     Write(u16),
     /// text through core::fmt::Write: 0 = write_str, 1 = write_char per character, 2 = write! with
-    /// arguments and a fill character; the characters are derived from the seed and include
+    /// arguments and a fill character, 3 = write! of several pieces one of which is 63..5000 bytes long; the characters are derived from the seed and include
     /// U+0080..U+00FF and multi-byte code points
     Fmt(u8, u16),
     /// the device fills the posted buffer with its next chunk, if a buffer is posted
@@ -40,6 +40,12 @@ pub enum KOp {
     Policy(Serve),
     Size,
     Emerg(u8),
+    /// Text through core::fmt::Write (as `Fmt`) while the device answers the transmit with a used
+    /// element that names a descriptor head the driver did not submit, so the blocking send fails.
+    /// The outcome of the call is not judged (the device misbehaves); what is judged is C08's
+    /// clause that the `emerg_wr` configuration field is touched only when EMERG_WRITE was
+    /// negotiated. Ends the history: the queue state after a bogus completion is unspecified.
+    FmtFail(u8, u16),
 }
 
 #[derive(Clone, Debug, Serialize, Deserialize)]
@@ -87,6 +93,8 @@ pub struct ConsoleDev {
     pub postings: Vec<u64>,
     pub tx: Vec<Vec<u8>>,
     pub errors: Vec<String>,
+    /// answer the next transmit chain with a used element naming another head (misbehaving device)
+    pub bad_tx: bool,
 }
 
 impl ConsoleDev {
@@ -129,6 +137,13 @@ impl Handler for ConsoleDev {
                     self.errors.push(format!("transmit must be one device-readable buffer: {:?}", c.elems));
                 }
                 let d = qs.read(w, 1, &c);
+                if self.bad_tx {
+                    self.bad_tx = false;
+                    let mut bogus = c.clone();
+                    bogus.head ^= 1;
+                    qs.complete_len(w, 1, &bogus, 0);
+                    return;
+                }
                 self.tx.push(d);
                 qs.complete_len(w, 1, &c, 0);
             }
@@ -185,6 +200,7 @@ impl WithT for Run<'_> {
             world::with(|w| w.spins = 0);
             let consumed_before = consumed;
             let postings_before = dev.with(|d| d.h.postings.len());
+            let ev_before = world::with(|w| w.dev.ev.len());
             // move newly delivered bytes into the model (they become visible to any API call)
             let sync = |pending: &mut VecDeque<u8>, synced: &mut u64| {
                 let total = dev.with(|d| d.h.delivered_total);
@@ -395,10 +411,20 @@ impl WithT for Run<'_> {
                     let text: String = (0..len).map(|k| pool[(*seed as usize / 7 + k * 5 + (*seed as usize >> 9)) % pool.len()]).collect();
                     let fill = pool[(*seed as usize >> 5) % pool.len()];
                     let mut want: Vec<u8> = Vec::new();
-                    let r = match how % 3 {
+                    let r = match how % 4 {
                         0 => {
                             want.extend(text.as_bytes());
                             g!(what, core::fmt::Write::write_str(&mut con, &text))
+                        }
+                        3 => {
+                            // one message of several pieces, one of them long (around typical
+                            // staging-buffer sizes): "<short literal><short arg><long arg><number>"
+                            let lens = [63usize, 64, 127, 128, 129, 255, 256, 257, 300, 511, 512, 513, 1000, 4095, 4096, 4097, 5000];
+                            let n = lens[(*seed as usize >> 3) % lens.len()];
+                            let long: String = (0..n).map(|k| (b'a' + ((k + *seed as usize) % 26) as u8) as char).collect();
+                            let expect = format!("cmdline[{}]: {} #{}\n", text, long, *seed);
+                            want.extend(expect.as_bytes());
+                            g!(what, core::fmt::Write::write_fmt(&mut con, format_args!("cmdline[{}]: {} #{}\n", text, long, *seed)))
                         }
                         1 => {
                             want.extend(text.as_bytes());
@@ -433,6 +459,31 @@ impl WithT for Run<'_> {
                     tx_model.push(want);
                     sig.add(11);
                 }
+                KOp::FmtFail(how, seed) => {
+                    let pool = ['a', 'Z', '0', ' ', '\u{7f}', '\u{a9}', '\u{20ac}', '\n'];
+                    let len = 1 + (*seed as usize % 7);
+                    let text: String = (0..len).map(|k| pool[(*seed as usize / 7 + k * 5) % pool.len()]).collect();
+                    dev.with(|d| d.h.bad_tx = true);
+                    // any result, a clean panic or a wait that never ends is the device's doing
+                    let outcome = guard(|| match how % 2 {
+                        0 => core::fmt::Write::write_str(&mut con, &text),
+                        _ => core::fmt::Write::write_fmt(&mut con, format_args!("{}:{}", text, *seed)),
+                    });
+                    let wrote: Vec<_> = world::with(|w| w.dev.ev[ev_before..].iter().filter_map(|e| if let crate::dev::Ev::CfgWrite { off, val } = e { Some((*off, val.clone())) } else { None }).collect());
+                    let verdict = if accepted & F_EMERG == 0 && !wrote.is_empty() {
+                        Err(format!("{}: the transmit failed (device completed a chain that was not submitted) and the driver wrote configuration space {:x?} although EMERG_WRITE was not negotiated", what, wrote))
+                    } else {
+                        Ok(())
+                    };
+                    st.class("console_fmt_with_failing_transmit");
+                    if matches!(outcome, Caught::Ok(Err(_))) {
+                        st.class("console_fmt_with_failing_transmit_reported_error");
+                    }
+                    // the rest of the history is not judged: tear down quietly
+                    let _ = guard(move || drop(con));
+                    let _ = world::take_faults();
+                    return verdict;
+                }
                 KOp::Size => {
                     let r = g!(what, con.size());
                     let want = if accepted & F_SIZE != 0 { Some((0x50u16, 0x19u16)) } else { None };
@@ -460,6 +511,14 @@ impl WithT for Run<'_> {
             }
             if let Some((tag, m)) = drv::fault_text() {
                 return Err(format!("{}: [{}] {}", what, tag, m));
+            }
+            // configuration space is written by exactly one operation of this driver, the
+            // emergency write, and only when its feature was negotiated (C08)
+            if accepted & F_EMERG == 0 {
+                let wrote: Vec<_> = world::with(|w| w.dev.ev[ev_before..].iter().filter_map(|e| if let crate::dev::Ev::CfgWrite { off, val } = e { Some((*off, val.clone())) } else { None }).collect());
+                if !wrote.is_empty() {
+                    return Err(format!("{}: configuration space written {:x?} although EMERG_WRITE was not negotiated", what, wrote));
+                }
             }
             let new_posts: Vec<u64> = dev.with(|d| d.h.postings[postings_before..].to_vec());
             // A buffer posted during this call is judged when the call returns: everything the
@@ -508,7 +567,7 @@ pub fn check(c: &KCase, st: &mut Stats) -> Result<(), String> {
     let dev = Shared::install(SimDev::new(
         2,
         c.policy,
-        ConsoleDev { chunks: c.chunks.iter().copied().collect(), rx: None, delivered_total: 0, feed_on_turn: 0, unpopped: false, postings: vec![], tx: vec![], errors: vec![] },
+        ConsoleDev { chunks: c.chunks.iter().copied().collect(), rx: None, delivered_total: 0, feed_on_turn: 0, unpopped: false, postings: vec![], tx: vec![], errors: vec![], bad_tx: false },
     ));
     with_transport(c.kind, 3, 12, Run { c, dev, st })?
 }
@@ -524,7 +583,7 @@ fn op() -> impl Strategy<Value = KOp> {
         1 => any::<u16>().prop_map(KOp::SendBytes),
         1 => any::<u16>().prop_map(KOp::Write),
         3 => any::<u16>().prop_map(KOp::ReadExact),
-        2 => (0u8..3, any::<u16>()).prop_map(|(h, s)| KOp::Fmt(h, s)),
+        2 => (0u8..4, any::<u16>()).prop_map(|(h, s)| KOp::Fmt(h, s)),
         6 => Just(KOp::Deliver),
         1 => drv::serve_strategy().prop_map(KOp::Policy),
         1 => Just(KOp::Size),
@@ -539,8 +598,15 @@ pub fn strategy() -> impl Strategy<Value = KCase> {
         drv::serve_strategy(),
         prop::collection::vec(prop_oneof![4 => 1u16..16, 2 => 1u16..600, 1 => Just(4096u16), 1 => 4000u16..=4096], 0..24),
         prop::collection::vec(op(), 0..60),
+        // one history in six ends with formatted output against a device that fails the transmit
+        prop_oneof![5 => Just(None), 1 => (0u8..2, any::<u16>()).prop_map(Some)],
     )
-        .prop_map(|(kind, offered, policy, chunks, ops)| KCase { kind, offered, policy, chunks, ops })
+        .prop_map(|(kind, offered, policy, chunks, mut ops, fail)| {
+            if let Some((h, s)) = fail {
+                ops.push(KOp::FmtFail(h, s));
+            }
+            KCase { kind, offered, policy, chunks, ops }
+        })
 }
 
 pub fn replay(_e: &str, case: &serde_json::Value) -> Result<(), String> {
